@@ -3,7 +3,8 @@
     UnusedForm belongs to C05.  Property theorems only. *)
 From Coq Require Import List NArith Bool.
 Import ListNotations.
-From LI Require Import Parser.Merge Parser.MergeProofs Parser.MergeCheck.
+From LI Require Import Parser.Merge Parser.MergeProofs Parser.MergeCheck Parser.MergeWf Parser.MergeSpec07Proofs.
+From LI Require Parser.MergeWarnProofs.
 Open Scope N_scope.
 
 (** the accessible key paths (BuildersKeys) are exactly the default file's key paths, identically
@@ -39,18 +40,24 @@ Theorem C07_mismatch : forall ext suppress ns dflt df rest ks ws,
     match dtree, t with Leaf _, Group _ => False | Group _, Leaf _ => False | _, _ => True end.
 Proof. exact ok_no_mismatch. Qed.
 
-(** Exactness of the Missing/Surplus diagnostics and the bridge to the executable predicate:
-    full statements, NOT proved (the correspondence evaluates [spec_C07] — multiset equality
-    with [expected_warnings] — on the real parser output of every generated project; the model
-    agrees with the parser on all of them). *)
-Definition C07_warnings_exact_statement : Prop :=
-  forall c, wf_case c = true ->
-    match check_locales (c_ext c) (c_suppress c) (c_nss c) with
-    | Ok (_, ws) => perm_eqb warning_eqb ws (expected_warnings c) = true
-    | _ => True
-    end.
-Definition C07_spec_statement : Prop :=
-  forall c, wf_case c = true -> spec_C07 c (model_result c) = true.
+(** Exactness of the diagnostics: on every well-formed case the MissingKey / SurplusKey warnings
+    the model produces are, as a multiset, exactly the ones the key sets call for
+    ([expected_warnings], Parser/MergeCheck.v: Missing(l,p) iff l does not inherit, the build is
+    not suppress_key_warnings, p is a default path whose parent group exists in l's file and p is
+    absent there; Surplus(l,p) iff p is in l's file, its parent is a group of the default file and
+    p is absent from the default) *)
+Theorem C07_warnings_exact : forall c,
+  wf_strict c = true ->
+  match check_locales (c_ext c) (c_suppress c) (c_nss c) with
+  | Ok (_, ws) => perm_eqb warning_eqb ws (expected_warnings c) = true
+  | _ => True
+  end.
+Proof. exact MergeWarnProofs.warnings_exact. Qed.
+
+(** the executable predicate the correspondence evaluates holds of the model on every
+    well-formed case (warnings, key sets, error iff the input calls for one, named place genuine) *)
+Theorem C07_spec : forall c, wf_strict c = true -> spec_C07 c (model_result c) = true.
+Proof. exact spec_C07_holds. Qed.
 
 (** non-vacuity: fr misses b (implicit), has surplus zz; it inherits, so only its surplus is reported *)
 Example C07_example :
@@ -58,7 +65,7 @@ Example C07_example :
              [(None, [(1, FCons 1 (Leaf 1) (FCons 2 (Leaf 2) FNil));
                       (2, FCons 1 (Leaf 3) (FCons 9 (Leaf 4) FNil));
                       (3, FCons 8 (Leaf 5) FNil)])] IOther in
-  wf_case c = true
+  wf_strict c = true
   /\ model_result c = IOk [WMissing 2 None [2]; WSurplus 2 None [9]; WSurplus 3 None [8]]
                           (model_entries c match check_locales (c_ext c) false (c_nss c) with Ok (o, _) => o | _ => [] end)
   /\ spec_C07 c (model_result c) = true.
